@@ -212,11 +212,15 @@ def c12(tier, seed):
             p.kill()
             raise tlc.MachineryError(f"hash-seed leg {leg} timed out")
         if p.returncode != 0 or not os.path.exists(outp):
+            for path in (inp, outp):
+                if os.path.exists(path):
+                    os.unlink(path)
             raise tlc.MachineryError(f"hash-seed leg {leg} failed (rc={p.returncode}):\n{(out or '')[-2000:]}")
         with open(outp) as f:
             d = json.load(f)
-        os.unlink(inp)
-        os.unlink(outp)
+        for path in (inp, outp):
+            if os.path.exists(path):
+                os.unlink(path)
         want = os.environ.get("VERIF_REPO_SRC", "/repo/src")
         if d["repo_src"] != want:
             raise tlc.MachineryError(f"hash-seed leg {leg} imported elexmodel from {d['repo_src']}, expected {want}")
